@@ -99,6 +99,23 @@ def enumerated(kmax, small_types=False):
     return out
 
 
+@lru_cache(None)
+def hydrocarbons(kmax):
+    """every connected closed-shell hydrocarbon skeleton with 4..kmax carbon atoms and bond orders 1-3 (cumulated and
+    conjugated systems, rings, cages), hydrogens filled in"""
+    out = []
+    seen = set()
+    for k in range(4, kmax + 1):
+        for ts, bo in heavy_skeletons(k, [("C", 4)]):
+            els, orders = with_hydrogens(ts, bo)
+            c = _canon(els, orders)
+            if c in seen:
+                continue
+            seen.add(c)
+            out.append((els, orders))
+    return out
+
+
 def _from_bonds(els, bonds):
     return list(els), {(min(a, b), max(a, b)): o for a, b, o in bonds}
 
